@@ -14,6 +14,7 @@
 (* defined in MC_SchemaObj and classes sent with a recorded trace.         *)
 (***************************************************************************)
 EXTENDS Integers, Sequences, FiniteSets, TLC
+CONSTANT Variant      \* "orig": the pinned commit, where setdefault, |= and popitem were the inherited dict methods; "fixed": the current tree
 
 NoBound == -1000
 
@@ -146,15 +147,20 @@ Pop(c, st, key, hasDefault) ==    \* Schema.pop
        IF f.imm \/ f.req THEN Raise(st)
        ELSE IF ~Has(st.data, f.out) THEN (IF hasDefault THEN Ok([st EXCEPT !.ad = Del(st.ad, f.att)]) ELSE Raise(st))
        ELSE Ok([data |-> Del(st.data, f.out), ad |-> Del(st.ad, f.att)])
-PopItem(c, st) ==                 \* Schema.popitem: last key through __delitem__
-  IF st.data = <<>> THEN Raise(st) ELSE DelItem(c, st, st.data[Len(st.data)].k)
-SetDefault(c, st, key, v) ==      \* Schema.setdefault
+PopItem(c, st) ==                 \* Schema.popitem: last key through __delitem__  (orig: dict.popitem, no deleter involved)
+  IF st.data = <<>> THEN Raise(st)
+  ELSE IF Variant = "orig" THEN Ok([st EXCEPT !.data = Del(st.data, st.data[Len(st.data)].k)])
+  ELSE DelItem(c, st, st.data[Len(st.data)].k)
+SetDefault(c, st, key, v) ==      \* Schema.setdefault  (orig: dict.setdefault, the value is stored as given)
   LET present == IF HasField(c, key) THEN Has(st.data, FieldOf(c, key).out) ELSE Has(st.data, key) IN
-  IF present THEN Ok(st) ELSE SetItem(c, st, key, v)
+  IF Variant = "orig" THEN (IF Has(st.data, key) THEN Ok(st) ELSE Ok([st EXCEPT !.data = Put(st.data, key, v)]))
+  ELSE IF present THEN Ok(st) ELSE SetItem(c, st, key, v)
 Clear(c, st) ==                   \* Schema.clear: the mapping and the cached attribute values of its keys
   IF \E x \in 1..Len(c.fields) : c.fields[x].imm \/ c.fields[x].req THEN Raise(st)
   ELSE LET cleared == {c.fields[x].att : x \in {y \in 1..Len(c.fields) : Has(st.data, c.fields[y].out)}} IN
        Ok([data |-> <<>>, ad |-> SelectSeq(st.ad, LAMBDA e : e.k \notin cleared)])
+RECURSIVE RawUpdate(_, _)
+RawUpdate(st, kvs) == IF kvs = <<>> THEN st ELSE RawUpdate([st EXCEPT !.data = Put(st.data, kvs[1].k, kvs[1].v)], Tail(kvs))    \* dict.__ior__
 RECURSIVE Update(_, _, _)
 Update(c, st, kvs) ==             \* Schema.update / |= : key by key, stops at the first failure
   IF kvs = <<>> THEN Ok(st)
@@ -186,6 +192,7 @@ Apply(c, st, o) ==
          [] o.op = "popitem" -> PopItem(c, st)
          [] o.op = "setdefault" -> SetDefault(c, st, o.key, o.v)
          [] o.op = "clear"   -> Clear(c, st)
+         [] o.op = "ior" /\ Variant = "orig" -> Ok(RawUpdate(st, o.kvs))
          [] o.op \in {"update", "ior", "updatekw"} -> Update(c, st, o.kvs)
          [] OTHER -> Raise(st)
 
